@@ -6,6 +6,8 @@ package main
 
 import (
 	"bytes"
+	"crypto/aes"
+	"crypto/cipher"
 	"crypto/ecdsa"
 	"crypto/elliptic"
 	"crypto/rsa"
@@ -21,6 +23,7 @@ import (
 	"sync"
 
 	"github.com/ossrs/go-oryx-lib/https/jose"
+	josecipher "github.com/ossrs/go-oryx-lib/https/jose/cipher"
 	"verifharness/rp"
 )
 
@@ -230,6 +233,10 @@ func jwsSeed(sd seedRec) string {
 func jweSeed(sd seedRec) string {
 	return seeds.get("jwe/"+sd.Alg+"/"+sd.Enc+"/"+sd.Form, func() string {
 		what := "jwe " + sd.Alg + " " + sd.Enc + " " + sd.Form
+		switch sd.Form {
+		case "unprotected", "perrecipient":
+			return handWrittenJwe(sd)
+		}
 		var e interface {
 			Encrypt([]byte) (*jose.JsonWebEncryption, error)
 			EncryptWithAuthData([]byte, []byte) (*jose.JsonWebEncryption, error)
@@ -265,6 +272,31 @@ func jweSeed(sd seedRec) string {
 		}
 		return obj.FullSerialize()
 	})
+}
+
+// handWrittenJwe writes JWE JSON serialisations the library's encrypter never produces but RFC 7516 7.2.1 allows:
+// no "protected" member at all, every header parameter in "unprotected" (resp. in the per-recipient "header").
+// The additional authenticated data of an absent protected header is the empty string (RFC 7516 5.1 step 14).
+func handWrittenJwe(sd seedRec) string {
+	k := theKeys()
+	cek := k.oct[16]
+	block, err := aes.NewCipher(cek)
+	must(err, "aes")
+	gcm, err := cipher.NewGCM(block)
+	must(err, "gcm")
+	iv := []byte{1, 2, 3, 4, 5, 6, 7, 8, 9, 10, 11, 12}
+	sealed := gcm.Seal(nil, iv, seedPayload, []byte(""))
+	ct, tag := sealed[:len(sealed)-16], sealed[len(sealed)-16:]
+	e := b64.EncodeToString
+	if sd.Form == "unprotected" {
+		return fmt.Sprintf(`{"unprotected":{"alg":"dir","enc":"A128GCM"},"iv":%q,"ciphertext":%q,"tag":%q}`, e(iv), e(ct), e(tag))
+	}
+	kw, err := aes.NewCipher(k.oct[16])
+	must(err, "aes")
+	wrapped, err := josecipher.KeyWrap(kw, cek)
+	must(err, "key wrap")
+	return fmt.Sprintf(`{"unprotected":{"enc":"A128GCM"},"recipients":[{"header":{"alg":"A128KW","kid":"k1"},"encrypted_key":%q}],"iv":%q,"ciphertext":%q,"tag":%q}`,
+		e(wrapped), e(iv), e(ct), e(tag))
 }
 
 func jwkOf(key interface{}) string {
